@@ -1,5 +1,6 @@
 import Goyang.Lemmas.LoadOrderDump
 import Goyang.Lemmas.LoadOrderLoad
+import Goyang.Lemmas.LoadOrderKept
 import Goyang.Lemmas.LoadOrderPlug
 import Goyang.Model.Pipeline
 import Goyang.Model.TypesLite
@@ -38,6 +39,7 @@ namespace Goyang.Props.C05Order
 open Goyang.Model Goyang.Lemmas.LoadOrder
 open Goyang.Lemmas.Registry (NoAt)
 open Goyang.Lemmas.Registry renaming hdr → header
+open Goyang.Spec.Registry (Header)
 
 /-- Module names are identifiers: no `@` (as in C13). -/
 def NamesOk (loads : List Stmt) : Prop := ∀ s ∈ loads, '@' ∉ s.arg.toList
@@ -78,13 +80,13 @@ pairwise different modules in two orders and processing gives the same canonical
 error set, or the same trees node by node.  `plug` builds the plugged layers from the registry
 (as `plugFull` does). -/
 theorem process_load_order_irrelevant_of_plug {loads₁ loads₂ : List Stmt} (hperm : loads₁.Perm loads₂)
-    (hn : NamesOk loads₁) (hd : Distinct loads₁) (opts : Opts) (plug : Registry → Plug)
+    (hd : Distinct loads₁) (opts : Opts) (plug : Registry → Plug)
     (hplug : ∀ σ, RegRel σ (Registry.loadAll loads₁).1 (Registry.loadAll loads₂).1 →
       PlugRel σ (Registry.loadAll loads₁).1 (Registry.loadAll loads₂).1
         (plug (Registry.loadAll loads₁).1) (plug (Registry.loadAll loads₂).1)) :
     dumpOutcome (processAll (Registry.loadAll loads₁).1 opts (plug (Registry.loadAll loads₁).1)) =
       dumpOutcome (processAll (Registry.loadAll loads₂).1 opts (plug (Registry.loadAll loads₂).1)) := by
-  obtain ⟨σ, h⟩ := regRel_of_perm hperm hn hd
+  obtain ⟨σ, h⟩ := regRel_of_sameFirsts (sameFirsts_of_perm_nodup hperm hd)
   exact (processAll_renaming_invariant h opts (hplug σ h)).symm
 
 /-- The placeholder layers: a type is its written name, no identity or typedef errors. -/
@@ -100,10 +102,10 @@ theorem plugLite_rel (σ : Nat → Nat) (r₁ r₂ : Registry) : PlugRel σ r₁
 uses, submodule merging, rpcs, the augment loop, `FixChoice`, deviations, error collection), with
 the placeholder type layer: unconditionally for pairwise different modules. -/
 theorem process_load_order_irrelevant_resolver {loads₁ loads₂ : List Stmt} (hperm : loads₁.Perm loads₂)
-    (hn : NamesOk loads₁) (hd : Distinct loads₁) (opts : Opts) :
+    (hd : Distinct loads₁) (opts : Opts) :
     dumpOutcome (processAll (Registry.loadAll loads₁).1 opts (plugLite (Registry.loadAll loads₁).1)) =
       dumpOutcome (processAll (Registry.loadAll loads₂).1 opts (plugLite (Registry.loadAll loads₂).1)) :=
-  process_load_order_irrelevant_of_plug hperm hn hd opts plugLite (fun σ _ => plugLite_rel σ _ _)
+  process_load_order_irrelevant_of_plug hperm hd opts plugLite (fun σ _ => plugLite_rel σ _ _)
 
 /-- The layers of the real pipeline (`plugFull`: `Type.resolve` / `resolveTypedefs` of the C09
 layer, `resolveIdentities` of the C11 layer with the insertion-order oracle — every map walk of
@@ -119,23 +121,23 @@ load orders of pairwise different modules give the same canonical dump: the same
 the same kinds, types, defaults, config / mandatory flags, list attributes, namespaces and
 instantiating modules. -/
 theorem process_load_order_irrelevant {loads₁ loads₂ : List Stmt} (hperm : loads₁.Perm loads₂)
-    (hn : NamesOk loads₁) (hd : Distinct loads₁) (opts : Opts) :
+    (hd : Distinct loads₁) (opts : Opts) :
     dumpOutcome (processAll (Registry.loadAll loads₁).1 opts (plugFull (Registry.loadAll loads₁).1)) =
       dumpOutcome (processAll (Registry.loadAll loads₂).1 opts (plugFull (Registry.loadAll loads₂).1)) :=
-  process_load_order_irrelevant_of_plug hperm hn hd opts plugFull (fun _ h => plugFull_rel h)
+  process_load_order_irrelevant_of_plug hperm hd opts plugFull (fun _ h => plugFull_rel h)
 
 /-- The statements of all texts, in load order. -/
 def stmtsOf (files : List SrcFile) : List Stmt := files.flatMap (·.stmts)
 
-/-- **The open core statement `Props.C05.ProcessLoadOrderIrrelevant`, with the hypotheses it
-needs**: for texts whose modules are pairwise different (and named by identifiers), the result of
-`processFiles` (`Modules.Parse` of every text in order, atomically, then `Modules.Process`) does
-not depend on the order of the texts — also not whether the set is inside the model at all. -/
+/-- **The open core statement `Props.C05.ProcessLoadOrderIrrelevant`, with the hypothesis it
+needs**: for texts whose modules are pairwise different, the result of `processFiles`
+(`Modules.Parse` of every text in order, atomically, then `Modules.Process`) does not depend on
+the order of the texts — also not whether the set is inside the model at all.  Names are
+arbitrary: a text with a name containing `@` is refused as a whole in every order. -/
 theorem process_files_load_order_irrelevant (opts : Opts) {files₁ files₂ : List SrcFile} (hperm : files₁.Perm files₂)
-    (hn : NamesOk (stmtsOf files₁)) (hd : Distinct (stmtsOf files₁)) :
+    (hd : Distinct (stmtsOf files₁)) :
     (processFiles opts files₁).toOption.map dumpOutcome = (processFiles opts files₂).toOption.map dumpOutcome := by
   have hps : (stmtsOf files₁).Perm (stmtsOf files₂) := List.Perm.flatMap_right _ hperm
-  have hn₂ : NamesOk (stmtsOf files₂) := fun s hs => hn s (hps.mem_iff.mpr hs)
   have hd₂ : Distinct (stmtsOf files₂) := (hps.map header).nodup_iff.mp hd
   unfold processFiles
   cases h1 : files₁.findSome? fun f => outsideL "" f.stmts with
@@ -158,8 +160,141 @@ theorem process_files_load_order_irrelevant (opts : Opts) {files₁ files₂ : L
       cases hw
     | none =>
       simp only [Except.toOption, Option.map_some, Option.some.injEq]
-      rw [loadFiles_eq_loadAll files₁ hn hd, loadFiles_eq_loadAll files₂ hn₂ hd₂]
-      exact process_load_order_irrelevant hps hn hd opts
+      -- the texts refused for a name leave no trace, in either order
+      have hpf : (files₁.filter goodFile).Perm (files₂.filter goodFile) := hperm.filter _
+      have hd' : Distinct (stmtsOf (files₁.filter goodFile)) :=
+        List.Nodup.sublist ((sublist_flatMap_filter files₁).map header) hd
+      have hd₂' : Distinct (stmtsOf (files₂.filter goodFile)) :=
+        List.Nodup.sublist ((sublist_flatMap_filter files₂).map header) hd₂
+      rw [loadFiles_filter_good files₁, loadFiles_filter_good files₂,
+        loadFiles_eq_loadAll _ (noAt_filter_goodFile files₁) hd', loadFiles_eq_loadAll _ (noAt_filter_goodFile files₂) hd₂']
+      exact process_load_order_irrelevant (List.Perm.flatMap_right _ hpf) hd' opts
+
+/-! ### several loads with one header: the first one decides
+
+`Distinct` excludes load lists in which two loads carry the same (kind, name, latest revision).
+Such a list is not a *set of modules* in the sense of the property: the registry holds one module
+per header, `Modules.add` refuses the second load (`Props.C13.duplicate_rejected`), and which text
+survives is decided by the order (`distinct_needed`) — first come, first served.  What does hold
+for arbitrary load lists is proved here: the outcome is a function of the *first* load of every
+header.  A refused load leaves no trace (`refused_loads_leave_no_trace`); two load lists — not
+even permutations of each other — with the same first load for every header give the same dump
+(`process_determined_by_first_loads`); in particular every permutation that keeps the loads of
+each header in their relative order does (`process_stable_order_irrelevant`).  The refusals agree
+too: as errors, for every permutation whatever (`refused_load_errors_perm`), and load by load
+when the first loads agree (`load_outcomes_perm`). -/
+
+/-- The first load that carries header `h`. -/
+def firstLoad (h : Header) (loads : List Stmt) : Option Stmt := loads.find? fun s => header s == h
+
+/-- The two load lists have the same first load for every header (with an `@`-free name: the
+other loads are refused anyway). -/
+def SameFirstLoads (loads₁ loads₂ : List Stmt) : Prop :=
+  ∀ h : Header, '@' ∉ h.name.toList → firstLoad h loads₁ = firstLoad h loads₂
+
+/-- The loads of every header stand in the same relative order in both lists. -/
+def StableRearrangement (loads₁ loads₂ : List Stmt) : Prop :=
+  ∀ h : Header, loads₁.filter (fun s => header s == h) = loads₂.filter (fun s => header s == h)
+
+theorem sameFirsts_of_sameFirstLoads {loads₁ loads₂ : List Stmt} (h : SameFirstLoads loads₁ loads₂) :
+    SameFirsts loads₁ loads₂ := by
+  intro x hx
+  apply h x
+  simpa [Spec.Registry.nameOk] using hx
+
+/-- Pairwise different headers: every permutation has the same first loads. -/
+theorem sameFirstLoads_of_distinct {loads₁ loads₂ : List Stmt} (hperm : loads₁.Perm loads₂) (hd : Distinct loads₁) :
+    SameFirstLoads loads₁ loads₂ :=
+  fun h _ => find?_perm_unique header hperm hd h
+
+/-- A rearrangement that keeps the loads of every header in their relative order has the same
+first loads. -/
+theorem sameFirstLoads_of_stable {loads₁ loads₂ : List Stmt} (h : StableRearrangement loads₁ loads₂) :
+    SameFirstLoads loads₁ loads₂ := by
+  intro x _
+  unfold firstLoad
+  rw [← List.head?_filter, ← List.head?_filter, h x]
+
+/-- The loads `Modules.add` accepts, in load order: of every header with an `@`-free name the
+first load that carries it. -/
+def acceptedLoads (loads : List Stmt) : List Stmt := kept loads
+
+theorem mem_acceptedLoads (loads : List Stmt) (s : Stmt) :
+    s ∈ acceptedLoads loads ↔ '@' ∉ s.arg.toList ∧ firstLoad (header s) loads = some s := by
+  unfold acceptedLoads
+  rw [mem_kept]
+  constructor
+  · rintro ⟨hg, hf⟩; exact ⟨Lemmas.Registry.noAt_of_good hg, hf⟩
+  · rintro ⟨hg, hf⟩; exact ⟨Lemmas.Registry.good_of_noAt hg, hf⟩
+
+/-- **A refused load leaves no trace**: the registry after any list of loads is the registry
+after the accepted loads alone — whose names are `@`-free and whose headers are pairwise
+different, so that everything proved under `NamesOk` and `Distinct` applies to it. -/
+theorem refused_loads_leave_no_trace (loads : List Stmt) :
+    (Registry.loadAll loads).1 = (Registry.loadAll (acceptedLoads loads)).1 ∧
+    NamesOk (acceptedLoads loads) ∧ Distinct (acceptedLoads loads) :=
+  ⟨loadAll_kept loads, kept_noAt loads, kept_nodup loads⟩
+
+/-- **Registry level: the first load of every header decides.**  Two load lists with the same
+first loads give registries that hold the same modules under renamed sequence numbers, every key
+of `ms.Modules` / `ms.SubModules` bound to corresponding modules. -/
+theorem registry_determined_by_first_loads {loads₁ loads₂ : List Stmt} (h : SameFirstLoads loads₁ loads₂) :
+    ∃ σ, RegRel σ (Registry.loadAll loads₁).1 (Registry.loadAll loads₂).1 :=
+  regRel_of_sameFirsts (sameFirsts_of_sameFirstLoads h)
+
+/-- The accepted loads are the same set. -/
+theorem accepted_loads_perm {loads₁ loads₂ : List Stmt} (h : SameFirstLoads loads₁ loads₂) :
+    (acceptedLoads loads₁).Perm (acceptedLoads loads₂) :=
+  kept_perm_of_sameFirsts (sameFirsts_of_sameFirstLoads h)
+
+/-- **The whole pipeline: the first load of every header decides**, for any plugged layers that
+respect the renaming. -/
+theorem process_determined_by_first_loads_of_plug {loads₁ loads₂ : List Stmt} (hf : SameFirstLoads loads₁ loads₂)
+    (opts : Opts) (plug : Registry → Plug)
+    (hplug : ∀ σ, RegRel σ (Registry.loadAll loads₁).1 (Registry.loadAll loads₂).1 →
+      PlugRel σ (Registry.loadAll loads₁).1 (Registry.loadAll loads₂).1
+        (plug (Registry.loadAll loads₁).1) (plug (Registry.loadAll loads₂).1)) :
+    dumpOutcome (processAll (Registry.loadAll loads₁).1 opts (plug (Registry.loadAll loads₁).1)) =
+      dumpOutcome (processAll (Registry.loadAll loads₂).1 opts (plug (Registry.loadAll loads₂).1)) := by
+  obtain ⟨σ, h⟩ := registry_determined_by_first_loads hf
+  exact (processAll_renaming_invariant h opts (hplug σ h)).symm
+
+/-- **The whole pipeline (`plugFull`): the first load of every header decides.**  Arbitrary load
+lists — names with `@`, several texts for one header, the lists need not even be permutations of
+each other: when the first load of every header is the same, the canonical dumps are equal. -/
+theorem process_determined_by_first_loads {loads₁ loads₂ : List Stmt} (hf : SameFirstLoads loads₁ loads₂)
+    (opts : Opts) :
+    dumpOutcome (processAll (Registry.loadAll loads₁).1 opts (plugFull (Registry.loadAll loads₁).1)) =
+      dumpOutcome (processAll (Registry.loadAll loads₂).1 opts (plugFull (Registry.loadAll loads₂).1)) :=
+  process_determined_by_first_loads_of_plug hf opts plugFull (fun _ h => plugFull_rel h)
+
+/-- **Load order does not matter as long as the loads of each header keep their relative
+order** — the strongest order independence that holds when several texts define one (kind, name,
+revision). -/
+theorem process_stable_order_irrelevant {loads₁ loads₂ : List Stmt} (hs : StableRearrangement loads₁ loads₂)
+    (opts : Opts) :
+    dumpOutcome (processAll (Registry.loadAll loads₁).1 opts (plugFull (Registry.loadAll loads₁).1)) =
+      dumpOutcome (processAll (Registry.loadAll loads₂).1 opts (plugFull (Registry.loadAll loads₂).1)) :=
+  process_determined_by_first_loads (sameFirstLoads_of_stable hs) opts
+
+/-- **The refusals do not depend on the load order** — no hypothesis at all: the errors
+`Modules.add` answers the refused loads with (`bad module name` with kind and name, `duplicate`
+with kind and full name) are the same multiset in every order. -/
+theorem refused_load_errors_perm {loads₁ loads₂ : List Stmt} (hperm : loads₁.Perm loads₂) :
+    ((Registry.loadAll loads₁).2.filterMap id).Perm ((Registry.loadAll loads₂).2.filterMap id) :=
+  load_errors_perm hperm
+
+/-- **Load by load**: when the first loads agree (in particular for pairwise different headers,
+`sameFirstLoads_of_distinct`), every load has the same outcome — accepted, or refused with the
+same error — in both orders. -/
+theorem load_outcomes_perm {loads₁ loads₂ : List Stmt} (hperm : loads₁.Perm loads₂) (hf : SameFirstLoads loads₁ loads₂) :
+    (loads₁.zip (Registry.loadAll loads₁).2).Perm (loads₂.zip (Registry.loadAll loads₂).2) :=
+  Lemmas.LoadOrder.load_outcomes_perm hperm (sameFirsts_of_sameFirstLoads hf)
+
+/-- The outcome of every load, read off the load list: refused for its name, refused as a
+duplicate of an earlier `@`-free load with the same header, or accepted. -/
+theorem load_outcomes (loads : List Stmt) : (Registry.loadAll loads).2 = outsAfter [] loads :=
+  loadAll_outs loads
 
 /-! ### the hypotheses are satisfiable, and they are needed
 
@@ -191,7 +326,7 @@ theorem exPerm : [exA, exAs, exB].Perm [exB, exAs, exA] :=
 example (opts : Opts) :
     dumpOutcome (processAll (Registry.loadAll [exA, exAs, exB]).1 opts (plugFull (Registry.loadAll [exA, exAs, exB]).1)) =
       dumpOutcome (processAll (Registry.loadAll [exB, exAs, exA]).1 opts (plugFull (Registry.loadAll [exB, exAs, exA]).1)) :=
-  process_load_order_irrelevant exPerm (by decide) (by decide) opts
+  process_load_order_irrelevant exPerm (by decide) opts
 /-- the sequence numbers really are permuted: `a` is module 0 in one order and module 2 in the other -/
 example : ((Registry.loadAll [exA, exAs, exB]).1.getModule "a").map (·.seq) = some 0 ∧
     ((Registry.loadAll [exB, exAs, exA]).1.getModule "a").map (·.seq) = some 2 := by decide
